@@ -511,11 +511,12 @@ fn decode_map0(c: &mut Cur, x: &Ctx, op: u8) -> Insn {
     let bbit = (x.b as u8) << 3;
     let i = match op {
         0x50..=0x57 => {
-            let sz = if x.p66 { 16 } else { 64 };
+            // default operand size 64 in 64-bit mode; 66 selects 16 unless REX.W is set
+            let sz = if x.p66 && !x.w { 16 } else { 64 };
             Insn::op1(Mn::Push, sz as u16, gpr((op & 7) | bbit, sz))
         }
         0x58..=0x5F => {
-            let sz = if x.p66 { 16 } else { 64 };
+            let sz = if x.p66 && !x.w { 16 } else { 64 };
             Insn::op1(Mn::Pop, sz as u16, gpr((op & 7) | bbit, sz))
         }
         0x63 => {
@@ -999,12 +1000,16 @@ pub fn reg_name(num: u8, size: u8) -> String {
 
 #[cfg(not(kani))]
 pub fn render_operand(o: &Operand, branch_target: bool) -> String {
+    render_operand_v(o, branch_target, false)
+}
+#[cfg(not(kani))]
+pub fn render_operand_v(o: &Operand, branch_target: bool, ymm: bool) -> String {
     match *o {
         Operand::None => String::new(),
         Operand::Gpr { num, size } => {
             if branch_target { format!("*{}", reg_name(num, size)) } else { reg_name(num, size) }
         }
-        Operand::Xmm(n) => format!("%xmm{}", n),
+        Operand::Xmm(n) => format!("%{}mm{}", if ymm { "y" } else { "x" }, n),
         Operand::Imm(v) => format!("${}", v),
         Operand::Rel(d) => format!("{}", d),
         Operand::Unencodable => "<unencodable>".to_string(),
@@ -1063,7 +1068,8 @@ pub fn render(i: &Insn) -> String {
             if i.mn == Mn::Mov && i.opsize == 64 {
                 if let (Operand::Gpr { .. }, Operand::Imm(v)) = (i.ops[0], i.ops[1]) {
                     if v < -2147483648 || v > 2147483647 {
-                        return format!("movabsq ${}, {}", v, render_operand(&i.ops[0], false));
+                        let p = if i.rep == 0xF3 { "rep " } else if i.rep == 0xF2 { "repne " } else { "" };
+                        return format!("{}movabsq ${}, {}", p, v, render_operand(&i.ops[0], false));
                     }
                 }
             }
@@ -1096,9 +1102,16 @@ pub fn render(i: &Insn) -> String {
         }
         .to_string(),
         _ => {
-            if i.vex { format!("v{}", base) } else { base }
+            // llvm adds an l/q suffix to cvtsi2ss/sd only when the integer source is in memory
+            let sx = match (i.mn, i.ops[(i.nops as usize).saturating_sub(1).min(3)]) {
+                (Mn::Cvtsi2ss, Operand::Mem { size, .. }) | (Mn::Cvtsi2sd, Operand::Mem { size, .. }) => sfx(size as u16),
+                _ => "",
+            };
+            if i.vex { format!("v{}{}", base, sx) } else { format!("{}{}", base, sx) }
         }
     };
+    // VEX.L = 1 on a packed instruction: ymm registers
+    let ymm = i.vex && i.opsize == 256 && base.len() > 2 && (base.ends_with("ps") || base.ends_with("pd") || i.mn == Mn::Pxor);
     let mut s = String::new();
     if i.lock {
         s += "lock ";
@@ -1117,7 +1130,7 @@ pub fn render(i: &Insn) -> String {
         k -= 1;
         s += if first { " " } else { ", " };
         first = false;
-        s += &render_operand(&i.ops[k], branch);
+        s += &render_operand_v(&i.ops[k], branch, ymm);
     }
     s
 }
